@@ -19,6 +19,13 @@ def gen_cases(ctx, per_n):
     return cases
 
 
+def gen_cases_one(ctx, n):
+    ab = []
+    for i in range(n):
+        ab += [ctx.rng.randrange(2, 1000), ctx.rng.randrange(1, 1000)]
+    return " ".join(map(str, [n, ctx.rng.randrange(0, P)] + ab))
+
+
 def expect(case):
     v = list(map(int, case.split()))
     n, x = v[0], v[1]
@@ -54,6 +61,24 @@ def run(ctx):
     if ctx.replay:
         import json
         cases = [json.load(open(ctx.replay))["case"]]
+    # reentrancy: one composed function called concurrently with different arguments (direct oracle only)
+    pcases = []
+    if not ctx.replay or cases[0].startswith("par "):
+        for n in range(2, 21):
+            for _ in range(3 if ctx.thorough() or ctx.broken else 1):
+                pcases.append("par " + gen_cases_one(ctx, n))
+        if ctx.replay:
+            pcases, cases = cases, []
+        rcp, pimpl, perr = ctx.run_harness(binp, [], pcases)
+        for c, got in zip(pcases, pimpl):
+            ctx.count(c)
+            ctx.hist("concurrent_N", c.split()[1])
+            if got != "ok":
+                n = int(c.split()[1])
+                ctx.violations.append(vlib.Violation("impl", "Pipe%s called concurrently from 8 goroutines does not return f_N(...f_1(a)) for every call: %s" % ("" if n == 2 else n, got),
+                                                     case=c, expected="ok", got=got, key={"N": n, "class": "concurrent"}))
+        if len(pimpl) != len(pcases):
+            ctx.broken.append({"kind": "correspondence", "detail": "harness produced %d lines for %d concurrent cases: %s" % (len(pimpl), len(pcases), perr[-500:])})
     rc, impl, err = ctx.run_harness(binp, [], cases)
     model = ctx.oracle("C20", cases)
     ctx.diff(cases, impl, model, "KChain.run spec vs real PipeN")
